@@ -9,9 +9,10 @@ UpSel == IF "TOPO" \in DOMAIN IOEnv /\ IOEnv.TOPO = "tri" THEN UpNone ELSE UpAB
 \* directed scenarios: the shortest history on which a model mutant breaks convergence; its stimuli are replayed on real nodes
 Directed == ViewsConverged \/ (PrintT(<<"DHIST", ToJson([steps |-> hist])>>) /\ FALSE)
 \* the same for the direction that loses messages: a subscribed neighbour is not known as subscribed
-NoMissing == Quiet => \A n \in Node : \A m \in sess[n] : subs[m] => m \in view[n]
+NoMissing == Quiet => \A n \in Node : \A m \in UpNbr(n) : subs[m] => m \in view[n]
 DirectedMissing == NoMissing \/ (PrintT(<<"DHIST", ToJson([steps |-> hist])>>) /\ FALSE)
 MCWSet == IF "BIGSTEP" \in DOMAIN IOEnv /\ IOEnv.BIGSTEP = "1" THEN {TRUE} ELSE BOOLEAN
 MCBugInitEmpty == "BUG" \in DOMAIN IOEnv /\ IOEnv.BUG = "initempty"
 MCBugStaleInit == "BUG" \in DOMAIN IOEnv /\ IOEnv.BUG = "staleinit"
+MCBugRelinkDrop == "BUG" \in DOMAIN IOEnv /\ IOEnv.BUG = "relinkdrop"
 =============================================================================
